@@ -70,7 +70,11 @@ type Scenario struct {
 	BadStreamAfter int  // >0: after this many requests the server sends a frame on the reserved stream 0
 	Probes         int  // probe requests at quiescence (calm scenarios only)
 	TimeoutMs      int  // request timeout / read deadline
-	Seed           uint64
+	PMidBody       int  // percent of answers (at most 4 per run) that are written up to a cut inside the frame at once and
+	// completed only when the CALLER of that request has returned (its timer fired / its context was cancelled):
+	// a caller giving up while the receive loop is in the middle of its response, ordered by events
+	CloseFault bool // the transport reports an error from Close() (after closing): closeWithError(nil) calls back into the pool
+	Seed       uint64
 }
 
 // calm: nothing in the scenario entitles the driver to close the connection
@@ -315,7 +319,8 @@ type item struct {
 
 type seg struct {
 	b     []byte
-	pause time.Duration // before writing b
+	pause time.Duration   // before writing b
+	after <-chan struct{} // before writing b: wait for this event (the caller of the request has returned)
 }
 
 type job struct {
@@ -345,6 +350,10 @@ type server struct {
 	rng       *vh.Rng
 	timeout   time.Duration
 	longLeft  int
+	midLeft   int
+	retMu     sync.Mutex
+	ret       map[int]chan struct{} // token -> closed when the caller of that request has returned
+	quit      chan struct{}
 	seen      map[int]bool // stream ids seen in requests
 	overstall int32
 	probing   int32
@@ -355,6 +364,18 @@ type server struct {
 }
 
 func (s *server) count(m map[string]int, k string) { m[k]++ }
+
+// returned is the event "the caller of the request with this token has returned"
+func (s *server) returned(tok int) chan struct{} {
+	s.retMu.Lock()
+	defer s.retMu.Unlock()
+	ch := s.ret[tok]
+	if ch == nil {
+		ch = make(chan struct{})
+		s.ret[tok] = ch
+	}
+	return ch
+}
 
 func (o *outq) enqueue(j job) {
 	o.mu.Lock()
@@ -404,6 +425,12 @@ func (o *outq) run() {
 				for _, sg := range j.segs {
 					if sg.pause > 0 {
 						time.Sleep(sg.pause)
+					}
+					if sg.after != nil {
+						select {
+						case <-sg.after:
+						case <-o.srv.quit:
+						}
 					}
 					if err := o.sc.WriteNow(sg.b); err != nil {
 						o.mu.Lock()
@@ -587,14 +614,19 @@ func Run(sc Scenario) Result {
 		sc.TimeoutMs = 60
 	}
 	timeout := time.Duration(sc.TimeoutMs) * time.Millisecond
-	srv := &server{sc: sc, log: log, rng: vh.NewRng(sc.Seed ^ 0xabcdef), timeout: timeout, longLeft: 3,
+	srv := &server{sc: sc, log: log, rng: vh.NewRng(sc.Seed ^ 0xabcdef), timeout: timeout, longLeft: 3, midLeft: 4,
+		ret: map[int]chan struct{}{}, quit: make(chan struct{}),
 		seen: map[int]bool{}, kinds: map[int]int{}, shape: map[string]int{}}
+	defer close(srv.quit)
 	var nreq int64
 	t0 := time.Now()
 	defer srv.outs.Range(func(_, o interface{}) bool { o.(*outq).shutdown(); return true })
 	node.OnConn = func(c *memcluster.ServerConn) {
 		o := &outq{sc: c, srv: srv, wake: make(chan struct{}, 1)}
 		srv.outs.Store(c.ID, o)
+		if sc.CloseFault {
+			c.Cli.SetCloseErr(errCloseNotify)
+		}
 		c.Intercept = func(b []byte) bool {
 			o.enqueue(job{segs: []seg{{b: append([]byte(nil), b...)}}})
 			return true
@@ -644,9 +676,33 @@ func Run(sc Scenario) Result {
 			kind = kErr0
 		}
 		srv.kinds[kind]++
+		mid := -1
+		if sc.PMidBody > 0 && tok != 0 && atomic.LoadInt32(&srv.probing) == 0 && srv.midLeft > 0 && srv.rng.Intn(100) < sc.PMidBody {
+			srv.midLeft--
+			mid = srv.rng.Intn(1 << 30)
+		}
 		srv.mu.Unlock()
 		frame, w := buildAnswer(sc.Proto, req.Stream, tok, kind)
 		it := item{b: frame, logs: []string{fmt.Sprintf("resp %d %d %d %d %d", connID, req.Stream, tok, kind, w)}}
+		if mid >= 0 && len(frame) > 1 {
+			// the frame up to a cut (inside the header, at its end, inside the body) at once; the rest when the caller has returned
+			hl := memcluster.HeaderLen(sc.Proto)
+			cut := 1 + mid%(len(frame)-1)
+			switch mid % 5 {
+			case 0:
+				cut = hl
+			case 1, 2:
+				if len(frame) > hl+1 {
+					cut = hl + 1 + (mid/5)%(len(frame)-hl-1)
+				}
+			}
+			srv.lateWG.Add(1)
+			srv.mu.Lock()
+			srv.count(srv.shape, "answer-completed-after-its-caller-gave-up")
+			srv.mu.Unlock()
+			o.enqueue(job{segs: []seg{{b: frame[:cut]}, {b: frame[cut:], after: srv.returned(tok)}}, logs: it.logs, done: []func(){srv.lateWG.Done}})
+			return
+		}
 		if atomic.LoadInt32(&srv.probing) == 1 {
 			srv.lateWG.Add(1)
 			it.done = srv.lateWG.Done
@@ -747,6 +803,7 @@ func Run(sc Scenario) Result {
 		resp, k, u, odd := observe(iter, tr)
 		atomic.AddInt64(&returned, 1)
 		cancel()
+		close(srv.returned(tok))
 		if resp {
 			log.Add("got 0 %d %d %d", tok, k, u)
 			if odd != "" {
@@ -962,6 +1019,10 @@ func Gen(r *vh.Rng, wide bool) Scenario {
 		sc.PStray = 10 + r.Intn(50)
 	}
 	sc.Probes = 2
+	if r.Intn(3) == 0 {
+		// some answers are completed only when their caller has given up (timer or cancelled context)
+		sc.PMidBody = 30 + r.Intn(70)
+	}
 	if special > 1 && r.Intn(3) == 0 {
 		// pauses longer than the request timeout in the middle of a server write: a few callers, several
 		// queries each, so that requests are sent while a frame is stalled and after its late tail arrived
@@ -974,6 +1035,7 @@ func Gen(r *vh.Rng, wide bool) Scenario {
 		sc.Probes = 3
 	}
 	if wide {
+		sc.CloseFault = r.Intn(2) == 0
 		if r.Intn(8) == 0 {
 			sc.TimeoutLimit = 1 + r.Intn(2)
 			sc.PNever = 30
@@ -996,6 +1058,11 @@ func Gen(r *vh.Rng, wide bool) Scenario {
 			sc.BadStreamAfter = 1 + r.Intn(20)
 		}
 	}
+	// a faulty Close only where the driver has no reason to dial again: a connection that finishes connecting after its
+	// pool was closed is closed under the pool's lock (known finding KF-C06-1, class cfk of the close-fault tier)
+	if sc.ResetAfter > 0 || sc.BadStreamAfter > 0 || sc.TimeoutLimit > 0 {
+		sc.CloseFault = false
+	}
 	// a response for a "never-used" id needs an id the allocator cannot reach in this run: with the 127 ids
 	// of protocol 2 only while few requests are outstanding at any time
 	if sc.Proto <= 2 && sc.Callers*sc.PerCaller > 40 {
@@ -1014,6 +1081,10 @@ func Main(wide bool) {
 			w := strings.Fields(l)
 			if len(w) > 0 && (w[0] == "rx" || w[0] == "rxk" || w[0] == "rxo" || w[0] == "rd" || w[0] == "rdo") {
 				fmt.Println(RunRx(l)) // executed on the real receive loop
+			} else if len(w) > 0 && w[0] == "jr" {
+				fmt.Println(RunJourney(l)) // executed on a real Conn with real callers over a scripted transport
+			} else if len(w) > 0 && (w[0] == "cf" || w[0] == "cfk") {
+				fmt.Println(RunCloseFault(l)) // executed on a real Session over transports whose Close fails
 			} else if len(w) > 0 && (w[0] == "avail" || w[0] == "calls" || w[0] == "alive" || w[0] == "probes") {
 				fmt.Println("(recorded)")
 			} else {
@@ -1053,6 +1124,45 @@ func Main(wide bool) {
 			os.WriteFile(path+"/fatal.txt", []byte("receive loop blocked on a scripted socket\n"+gocql.VerifLastHangDump), 0o644)
 		}
 	}
+	// the journey of a response through the real receive loop with real callers, event-ordered (C06)
+	njr := 0
+	if wide {
+		rj := vh.NewRng(vh.EnvSeed() ^ 0x6a6f7572)
+		n := 1200
+		if tier == "thorough" {
+			n = 40000
+		}
+		for i := 0; i < n; i++ {
+			line, cls := GenJourney(rj)
+			out.Case("reset 128", "ok", "reset", false) // (a replay is the op lines since the last reset: this op alone)
+			out.Case(line, RunJourney(line), cls, true)
+			njr++
+		}
+		if jrHung {
+			os.WriteFile(path+"/fatal.txt", []byte(JrHangDump), 0o644)
+		}
+	}
+	// closing pools / sessions / connections over transports whose Close() reports an error (C06)
+	ncf := 0
+	if wide && !jrHung {
+		rc := vh.NewRng(vh.EnvSeed() ^ 0x636c6f73)
+		n := 120
+		if tier == "thorough" {
+			n = 3000
+		}
+		for i := 0; i < n; i++ {
+			line, cls := GenCloseFault(rc)
+			out.Case("reset 128", "ok", "reset", false)
+			out.Case(line, RunCloseFault(line), cls, true)
+			ncf++
+		}
+		if cfHung {
+			os.WriteFile(path+"/fatal.txt", []byte(CfHangDump), 0o644)
+		}
+	}
+	if jrHung || cfHung {
+		runs = 0 // one confirmed hang is the verdict; the goroutines of that run are still around
+	}
 	nreq := 0
 	kinds := map[string]int{}
 	shape := map[string]int{}
@@ -1087,5 +1197,5 @@ func Main(wide bool) {
 	if len(odd) > 0 {
 		os.WriteFile(path+"/odd_errors.txt", []byte(strings.Join(odd, "\n")+"\n"), 0o644)
 	}
-	out.Close(map[string]interface{}{"scenarios": runs, "requests_observed": nreq, "scripted_socket_cases": nrx, "answer_kinds": kinds, "write_shapes": shape})
+	out.Close(map[string]interface{}{"scenarios": runs, "requests_observed": nreq, "scripted_socket_cases": nrx, "journey_cases": njr, "close_fault_cases": ncf, "answer_kinds": kinds, "write_shapes": shape})
 }
